@@ -988,13 +988,27 @@ func callBuiltin(caller *frame, callpos token.Pos, fn *ssa.Builtin, args []value
 		if len(args) == 1 {
 			return args[0]
 		}
+		var res []value
+		a0 := args[0].([]value)
 		switch args[1].(type) {
 		case string, symstr:
 			// append([]byte, ...string) []byte
-			return caller.i.appendValues(args[0].([]value), strBytes(args[1]))
+			res = caller.i.appendValues(a0, strBytes(args[1]))
+		default:
+			// append([]T, ...[]T) []T
+			res = caller.i.appendValues(a0, args[1].([]value))
 		}
-		// append([]T, ...[]T) []T
-		return caller.i.appendValues(args[0].([]value), args[1].([]value))
+		// a reallocated backing array has zero values of T in its spare capacity
+		// (native append on []value leaves Go nils there)
+		if cap(res) > len(res) && (cap(a0) == 0 || &res[:1][0] != &a0[:1][0]) {
+			if sl, ok := fn.Type().(*types.Signature).Params().At(0).Type().Underlying().(*types.Slice); ok {
+				spare := res[len(res):cap(res)]
+				for k := range spare {
+					spare[k] = zero(sl.Elem())
+				}
+			}
+		}
+		return res
 
 	case "copy": // copy([]T, []T) int or copy([]byte, string) int
 		src := args[1]
